@@ -271,7 +271,21 @@ func (o *oidcHandler) redirectToIDP(ctx context.Context, log telemetry.Logger,
 		"code_challenge":        []string{oauth2.S256ChallengeFromVerifier(codeVerifier)},
 		"code_challenge_method": []string{"S256"},
 	}
-	redirectURL := o.config.GetAuthorizationUri() + "?" + query.Encode()
+	// The authorization endpoint may already have a query component of its own, which must be retained.
+	authorizationURL, err := url.Parse(o.config.GetAuthorizationUri())
+	if err != nil {
+		log.Error("error parsing the authorization uri", err)
+		setDenyResponse(resp, newDenyResponse(), codes.Internal)
+		return
+	}
+	endpointQuery := authorizationURL.Query()
+	for param, values := range endpointQuery {
+		if _, ok := query[param]; !ok {
+			query[param] = values
+		}
+	}
+	authorizationURL.RawQuery = query.Encode()
+	redirectURL := authorizationURL.String()
 
 	// Generate denied response with redirect headers
 	deny := newDenyResponse()
